@@ -82,7 +82,7 @@ impl SplitMix {
     }
 }
 const ITEM_ALPHA: &[u8] = b"abAB$\\ -c/";
-const NON_ASCII: &[char] = &['é', 'É', 'ß', 'ä', 'Ä', 'ñ', '漢'];
+const NON_ASCII: &[char] = &['é', 'É', 'ß', 'ä', 'Ä', 'ñ', '漢', 'σ', 'ς'];
 // (mirrors gen::rstr draw for draw, including the one string in eight with non-ASCII characters)
 fn rstr(rng: &mut SplitMix, lo: u64, hi: u64) -> String {
     let n = lo + rng.below(hi - lo + 1);
